@@ -50,4 +50,21 @@ theorem C20_F19 :
     (fin.T 0).script = [] ∧ (fin.T 0).cur = none ∧ acquiredWorkers pw fin.W 0 = [0] := by
   decide
 
+set_option maxRecDepth 4000 in
+open Owner in
+/-- A `release_all()` whose default worker list is the *alive* workers (`workers or self.workers`
+instead of `self._workers`): `run` of pool 0 over workers [0, 1] with worker 0 dead acquires worker 0
+while searching (it is free), skips it (not alive), uses worker 1; the cleanup then only visits
+worker 1, and the dead worker 0 stays acquired. -/
+theorem C20_alive_only_finalizer :
+    let pw : Pid → List Wid := fun _ => [0, 1]
+    let u : Wid → Bool := fun w => w != 0
+    let aliveOnly : List Wid := (pw 0).filter u
+    let c0 : Cfg := ⟨fun _ => {}, fun t =>
+      if t = 0 then { script := [.nextIdle 0 (pw 0) true, .releaseAll 0 aliveOnly] } else {}⟩
+    let fin := runSched pw c0 (List.replicate 26 (0, u))
+    (fin.T 0).script = [] ∧ (fin.T 0).cur = none ∧
+    (fin.T 0).results = [.worker (some 1), .unit] ∧ acquiredWorkers pw fin.W 0 = [0] := by
+  decide
+
 end MlModel.Witness
